@@ -85,7 +85,11 @@ def check_links(db, chk) -> None:
         stores = [e for e in muts if e["what"] == "loc-store"]
         # ---- R4 sentinel initialisation
         exp_init = T.min2(CORR, T.C(0))
-        ok_init = bool(init) and init[0]["term"] == exp_init and all(init[0]["line"] < s["line"] for s in stores)
+        def _nocast(t_):          # the sentinel column holds ids: a cast of its initial value to a FULL-WIDTH integer / float type keeps every value (a narrowing cast stays)
+            while isinstance(t_, tuple) and len(t_) == 3 and t_[0] == "astype" and isinstance(t_[1], tuple) and len(t_[1]) == 2 and str(t_[1][1]).split(".")[-1] in ("int64", "int", "float64", "float", "Int64"):
+                t_ = t_[2]
+            return t_
+        ok_init = bool(init) and _nocast(init[0]["term"]) == exp_init and all(init[0]["line"] < s["line"] for s in stores)
         chk.ob("C02.R4-sentinel", f"{tag}: index_correlation initialised to min(correlation, 0) before any link is written", ok_init, where,
                found=[T.show(e["term"])[:120] for e in init[:1]] or "no initialisation", accepted=T.show(exp_init),
                why="-1 without id, 0 with an id whose partner is absent; a path that skips or replaces it writes the wrong sentinel")
